@@ -12,7 +12,7 @@ def _miss(v):
     return v is None or (isinstance(v, float) and v != v)
 
 
-DATA_CARRIERS = ["f64", "list_none", "list_nan", "tuple_nan", "f32", "int", "masked_nan", "masked_junk", "series",
+DATA_CARRIERS = ["f64", "list_none", "list_nan", "tuple_nan", "f32", "int", "masked_nan", "masked_junk", "masked_mixed", "series",
                  "series_shifted", "dask", "object"]
 TIME_CARRIERS = ["dt64ns", "dt64us", "dt64ms", "dt64s", "list_datetime", "list_timestamp", "dtindex", "series",
                  "dtindex_utc", "series_utc", "epoch_list", "epoch_int", "epoch_float"]
@@ -22,6 +22,9 @@ SPAN_CARRIERS = ["list", "tuple"]
 def data_applicable(kind, xs):
     if kind == "int":
         return all((not _miss(v)) and float(v) == int(v) for v in xs) and len(xs) > 0
+    if kind == "f32":
+        # only when the values survive the narrowing unchanged (same logical series)
+        return all(_miss(v) or float(np.float32(v)) == float(v) for v in xs)
     return True
 
 
@@ -46,6 +49,19 @@ def data(xs, kind="f64", junk=None):
         j = junk if junk is not None else 0.0
         return np.ma.MaskedArray(np.array([j if _miss(v) else float(v) for v in xs], dtype=np.float64),
                                  mask=[_miss(v) for v in xs])
+    if kind == "masked_mixed":
+        # every other missing value is masked (finite junk underneath), the rest are plain unmasked NaN
+        j = junk if junk is not None else 0.0
+        vals, mask, k = [], [], 0
+        for v in xs:
+            if _miss(v):
+                k += 1
+                vals.append(j if k % 2 else NAN)
+                mask.append(bool(k % 2))
+            else:
+                vals.append(float(v))
+                mask.append(False)
+        return np.ma.MaskedArray(np.array(vals, dtype=np.float64), mask=np.array(mask, dtype=bool))
     if kind == "series":
         import pandas as pd
         return pd.Series(f, dtype="float64")
